@@ -27,7 +27,7 @@ AT(body, none, k) == [body |-> body, none |-> none, k |-> k]          \* k: a co
 OneK == KForm(Q)
 ATCoef(at) == IF at.none THEN OneK ELSE at.k
 ATNegate(at) == AT(at.body, FALSE, NegF(ATCoef(at)))
-ATPositive(at) == at.none \/ at.k.c > 0
+ATPositive(at) == at.none \/ at.k.c >= 0          \* a zero coefficient (left by terms that cancel) is not a non-convex use (D18)
 AddK(k1, k2) == AddF(k1, k2)
 \* _combine_optional_floats
 Combine(a, b) ==
